@@ -2,8 +2,7 @@
 Two frame facts of the engine core used by the completeness half of the refinement:
   * rows are never removed (`step_length_le`);
   * once the workflow is completed and all its rows are completed, an admissible event changes
-    neither the rows nor the workflow state (`step_frozen`) - the only thing that would is the stale
-    re-start of a failed task, which `admissibleB` excludes.
+    neither the rows nor the workflow state (`step_frozen`).
 -/
 import Mistral.Lemmas.SemStep
 namespace Mistral.Sem
@@ -98,7 +97,9 @@ theorem step_length_le (sp : Spec) (w : World) (e : Event) : w.tasks.length ≤ 
             · exact Nat.le_refl _
             · split
               · exact Nat.le_refl _
-              · simp [setTask_length]
+              · split
+                · exact Nat.le_refl _
+                · simp [setTask_length]
       | rpcResult t ok =>
         simp only
         split
@@ -195,10 +196,12 @@ theorem step_frozen (sp : Spec) (orc : String → Bool) (rk : String → Nat) (h
             subst hf
             split
             · exact ⟨rfl, rfl⟩
-            · rename_i hns
-              rcases rowOK_completed_state sp orc rk hsp r (h.rows r hrm) hrc with h1 | h1
-              · rw [h1] at hns; simp at hns
-              · exact absurd h1 (adm_not_stale orc w t r ha (by simpa using hc) hfr')
+            · first
+              | exact ⟨rfl, rfl⟩
+              | (split
+                 · exact ⟨rfl, rfl⟩
+                 · rename_i hnc
+                   exact absurd hrc hnc)
       | rpcResult t ok =>
         simp only
         split
